@@ -37,6 +37,13 @@ func main() {
 		os.Exit(cmdCallees(os.Args[2:]))
 	case "replay":
 		os.Exit(cmdReplay(os.Args[2:]))
+	case "replaytest":
+		// debugging aid: run the replay template registered under <key> for an obligation name
+		r := replayers[os.Args[2]]
+		src := r.source(nil, os.Args[3])
+		ok, out := runOverlayTest(r.pkg, "zz_gowp_replay_test.go", src, r.test)
+		fmt.Println(ok, out)
+		os.Exit(0)
 	case "selftest":
 		os.Exit(cmdSelftest(os.Args[2:]))
 	default:
